@@ -372,7 +372,8 @@ impl DbcParser {
         // Skip to the record data (uses version-specific offset)
         cursor.seek(SeekFrom::Start(self.record_data_offset))?;
 
-        let mut records = Vec::with_capacity(self.header.record_count as usize);
+        // The count comes from the file header: it is only a pre-allocation hint
+        let mut records = Vec::with_capacity((self.header.record_count as usize).min(1 << 16));
 
         for _ in 0..self.header.record_count {
             let record = if let Some(schema) = &self.schema {
@@ -423,7 +424,7 @@ impl DbcParser {
 
     /// Parse a record without a schema
     fn parse_record_raw(&self, cursor: &mut Cursor<&[u8]>) -> Result<Record> {
-        let mut values = Vec::with_capacity(self.header.field_count as usize);
+        let mut values = Vec::with_capacity((self.header.field_count as usize).min(1 << 16));
 
         for _ in 0..self.header.field_count {
             // Without a schema, we assume all fields are 32-bit integers
